@@ -18,9 +18,9 @@ ASSUMPTIONS = ["knot values compared to 1e-12 against exact dyadic subdivision o
 def _refine_cases(draw, tier):
     big = tier == "thorough"
     d = draw(gen.spline(max_p=4 if big else 3, max_extra=4 if big else 3, affine_range="maybe", normalize="maybe",
-                        vol_max_p=2, vol_max_extra=2))
+                        vol_max_p=2, vol_max_extra=2, long=True))
     pdim = len(d["degree"])
-    hi = 2 if d["kind"] == "volume" else 3
+    hi = 1 if d.get("long") else (2 if d["kind"] == "volume" else 3)
     dens = [draw(st.integers(0, hi)) for _ in range(pdim)]
     if sum(dens) == 0:
         dens[draw(st.integers(0, pdim - 1))] = draw(st.integers(1, hi))
@@ -169,7 +169,9 @@ def check_helper(case, ctx):
         ctx.label("nothing-to-insert")
         return
     before = [list(map(list, r)) if rows else list(r) for r in cp]
-    new_cp, new_kv = helpers.knot_refinement(p, list(kv), cp, **kw)
+    ctx.label("knot-vector-as-tuple", bool(d.get("kv_tuple")))
+    new_cp, new_kv = helpers.knot_refinement(p, tuple(kv) if d.get("kv_tuple") else list(kv), cp, **kw)
+    new_kv = list(new_kv)
     ctx.nt(mode != "default", "explicit-list")
     ctx.nt(case["where"] in ("first-span", "last-span"), "list-inside-one-end-span")
     ctx.nt(build.has_repeated_interior(d), "existing-multiplicity>=2")
